@@ -68,6 +68,12 @@ class SymList:
         return SymList(self.length + o.length, lo, hi, segs)
 
 
+def loopvar(lid, name):
+    """symbol for the value a variable has at the start of an arbitrary iteration of loop lid (a path, so that
+    attribute stores on a loop variable are tracked)"""
+    return Rat.sym(f"loopvar#{lid}('{name}')")
+
+
 def as_symlist(v):
     if isinstance(v, SymList):
         return v
@@ -108,6 +114,8 @@ def path_of(v):
         a = v.single_atom()
         if a is not None and a.kind in ('sym', 'fld'):
             return a.name
+        if a is not None and a.kind == 'fn' and a.name.startswith('call:'):
+            return a.key          # the object returned by an opaque call: attribute stores on it are tracked
     return None
 
 
@@ -336,15 +344,15 @@ class Evaluator:
                 ll = Rat.of(mk_atom('fn', f'looplen#{self.loop_id}', (nm,)))
                 sub.env[nm] = SymList(ll, segs=[('<prefix>', ll)])
             else:
-                sub.env[nm] = Rat.of(mk_atom('fn', f'loopvar#{self.loop_id}', (nm,)))
+                sub.env[nm] = loopvar(self.loop_id, nm)
         body_ok = True
         lid = self.loop_id
         try:
             outs = self.block(s.body, sub)
-            fall = [o for o in outs if o[0] in ('fall', 'continue')]
-            if len(fall) == 1:
-                sub = fall[0][1]
-            self.loop_bodies[lid] = {'node': s, 'pre': dict(pre_vals), 'post': dict(sub.env), 'test': self.cond(s.test, st)
+            fall = [o for o in outs if o[0] == 'fall'] or [o for o in outs if o[0] == 'continue']
+            if fall:
+                sub = fall[-1][1]        # the path that runs through the whole body (early `continue`s are on its pc)
+            self.loop_bodies[lid] = {'node': s, 'pre': dict(pre_vals), 'post': dict(sub.env), 'store': dict(sub.store), 'test': self.cond(s.test, st)
                                      if isinstance(s, ast.While) else None}
         except CannotAnalyse:
             body_ok = False
@@ -372,7 +380,7 @@ class Evaluator:
                     pv, nv = pre_vals.get(v), sub.env.get(v)
                     if not isinstance(pv, Rat) or not isinstance(nv, Rat):
                         continue
-                    dv = nv - Rat.of(mk_atom('fn', f'loopvar#{self.loop_id}', (v,)))
+                    dv = nv - loopvar(self.loop_id, v)
                     if dv.eq(dlen) and not dlen.is_zero():
                         st.env[nm] = SymList(pre.length - pv + st.env[v])
                         self.invariants.append((self.loop_id, f'len({nm}) - {v} is invariant'))
@@ -632,6 +640,8 @@ class Evaluator:
             return Rat.sym('inf')
         if isinstance(r, (Func, Cls)):
             return Rat.of(mk_atom('sym', f'<{r.qual}>'))
+        if isinstance(r, tuple) and r[0] == 'module':
+            return Rat.of(mk_atom('sym', f'<{r[1].name}>'))
         return Rat.sym(name)
 
     def num(self, v):
